@@ -253,8 +253,11 @@ def _lroo_out():
     """Output dtype of the lroo gufunc as compiled (discovered, not assumed)."""
     import hdc.algo  # noqa: F401
     ops = importlib.import_module("hdc.algo.ops")
-    r = ops.lroo(np.ones((1, 3), "uint8"))
-    return str(np.asarray(r).dtype)
+    try:
+        r = ops.lroo(np.zeros((1, 3), "uint8"))
+        return str(np.asarray(r).dtype)
+    except Exception:
+        return "uint32"   # the exploration itself will report why lroo cannot be called
 
 
 def child_main(tier, section, outfile):
